@@ -41,9 +41,9 @@ def deps_of(p):
 
 def run(ctx):
     rng = ctx.rng
-    nprog = ctx.budget(40, 1200)
+    nprog = ctx.budget(40, 250)
     full_upto = ctx.budget(2, 3)       # programs with at most this many files get every assignment
-    sample = ctx.budget(10, 60)        # random assignments for bigger programs
+    sample = ctx.budget(10, 40)        # random assignments for bigger programs
     modes_all = [0, 1, 3, 7, 2, 4]
     ctx.rule = ("%d generated multi-file programs (1-3 files, proto2/proto3/editions, imports, custom options, extensions, services) and near-valid variants "
                 "that fail while linking; x source-info modes {none, standard, +extra comments, +extra option locations}; x every assignment of an input form "
